@@ -23,7 +23,7 @@ RULE = ("identity: datasets/moments/bounds as in C06 (n<=25, control features, r
         "of signed_weights in lambda on random combinations, the objective's weights vs cost-weighted error differences, the "
         "loss-moment identity for BoundedGroupLoss (groups first appearing in arbitrary order), in a third of the cases on a moment object "
         "that was loaded with other data of the same size and queried before, and project_lambda (non-negative, Lagrangian never lower, on basis and random "
-        "predictors). history: ExponentiatedGradient and GridSearch are fitted with a recording exact learner; every stored "
+        "predictors); custom_utility: UtilityParity loaded with caller-supplied utilities (scaled, sign-flipped, per-row) and events, checked against the definition and the same identity; the mean-loss objective of BoundedGroupLoss with multipliers != 1. history: ExponentiatedGradient and GridSearch are fitted with a recording exact learner; every stored "
         "predictor's recorded (y, sample_weight) is compared with 1[w>0] and |w| (up to scale) for w recomputed from the "
         "multiplier vector recorded for it. distinct = distinct (moment, bound, n, #groups, #strata, #index entries); "
         "non-trivial = >=2 groups and >=4 index entries.")
@@ -32,7 +32,8 @@ ASSUMPTIONS = ["binary labels for classification moments", "reference weights fr
 
 def cases(tier, seed):
     k = 220 if tier == "quick" else 6000
-    return [("identity", i) for i in range(k)] + [("loss_identity", i) for i in range(k // 3)] + [("history", i) for i in range(k // 2)]
+    return ([("identity", i) for i in range(k)] + [("loss_identity", i) for i in range(k // 3)] + [("history", i) for i in range(k // 2)]
+            + [("custom_utility", i) for i in range(k // 3)])
 
 
 def run_case(cls, key, seed, ctx):
@@ -41,6 +42,8 @@ def run_case(cls, key, seed, ctx):
         return run_identity(ctx, rng)
     if cls == "loss_identity":
         return run_loss_identity(ctx, rng)
+    if cls == "custom_utility":
+        return run_custom_utility(ctx, rng)
     return run_history(ctx, rng)
 
 
@@ -186,6 +189,74 @@ def run_loss_identity(ctx, rng):
     pl = m.project_lambda(lam)
     ctx.ev("projection_checks")
     ctx.check(bool(np.allclose(np.asarray(pl, float), np.asarray(lam, float))), "project_lambda_changes_loss_multipliers", wit=wit)
+    # the matching objective (BoundedGroupLoss.default_objective(): the mean loss over all rows) obeys the same identity for any multiplier
+    obj = m.default_objective()
+    obj.load_data(ds.X, yv, sensitive_features=ds.g)
+    for c_ in (1.0, float(gen.pick(rng, [3.0, 0.5, 0.0, 2.25]))):
+        lam_o = pd.Series([c_], index=obj.index)
+        go = obj.gamma(ML.FixedPredictor(h))
+        wo = np.asarray(obj.signed_weights(lam_o), float)
+        ctx.ev("objective_identities_checked")
+        ctx.check(wo.shape == (n,) and close(float(np.dot(lam_o, go.reindex(obj.index))), float(np.dot(wo, lv) / n), 1e-9, 1e-12), "mean_loss_objective_identity_broken",
+                  multiplier=c_, lambda_gamma=float(np.dot(lam_o, go.reindex(obj.index))), weighted_loss=float(np.dot(wo, lv) / n) if wo.shape == (n,) else None,
+                  weights=wo.tolist()[:8], wit=wit)
+
+
+def run_custom_utility(ctx, rng):
+    """UtilityParity loaded with the caller's own utilities (documented `utilities=` argument: column 0 = utility of predicting 0,
+    column 1 = of predicting 1): gamma is the difference of group / event means of u(h) = u0 + (u1 - u0) h, and the identity holds."""
+    import fairlearn.reductions as red
+
+    ds = ML.make_dataset(rng, nmin=4, nmax=20, control=False)
+    n = ds.n
+    style = gen.pick(rng, ["scaled", "signed", "per_row"])
+    if style == "scaled":
+        c_ = float(gen.pick(rng, [2.0, 0.5, 3.5, 0.1]))
+        U = np.column_stack([np.zeros(n), np.full(n, c_)])
+    elif style == "signed":
+        U = np.column_stack([np.full(n, 1.0), np.full(n, float(gen.pick(rng, [-1.0, -0.5, 0.25])))])
+    else:
+        U = np.round(rng.uniform(-2, 3, size=(n, 2)), 2)
+    by_label = bool(rng.random() < 0.5)
+    event = pd.Series(["y=%d" % v for v in ds.y] if by_label else ["all"] * n)
+    bt = gen.pick(rng, ["diff", "ratio"])
+    ratio = 1.0 if bt == "diff" else float(gen.pick(rng, [0.8, 0.5]))
+    m = red.UtilityParity(difference_bound=0.05) if bt == "diff" else red.UtilityParity(ratio_bound=ratio, ratio_bound_slack=0.02)
+    m.load_data(ds.X, pd.Series(ds.y), sensitive_features=pd.Series(ds.g), event=event, utilities=U.copy())
+    idx = list(m.index)
+    wit = {"y": ds.y, "groups": ds.g, "events": event.tolist(), "utilities": U.tolist(), "bound": bt, "ratio": ratio}
+    ctx.mark(["custom_utility", style, by_label, bt, n, len(idx)], len(set(ds.g)) >= 2, sample=wit)
+    # definition
+    h = rng.random(n)
+    uh = U[:, 0] + (U[:, 1] - U[:, 0]) * h
+    got = m.gamma(ML.FixedPredictor(h))
+    for (sgn, ev_, grp) in idx:
+        rows_e = [i for i in range(n) if event[i] == ev_]
+        rows_eg = [i for i in rows_e if ds.g[i] == grp]
+        me, meg = float(np.mean(uh[rows_e])), float(np.mean(uh[rows_eg]))
+        exp = ratio * meg - me if sgn == "+" else ratio * me - meg
+        ctx.ev("basis_identities_checked")
+        ctx.check(close(got[(sgn, ev_, grp)], exp, 1e-9, 1e-12), "custom_utility_gamma_differs_from_definition", entry=repr((sgn, ev_, grp)), got=float(got[(sgn, ev_, grp)]),
+                  expected=exp, wit=wit)
+    # gradient identity, entry by entry and for a random non-negative multiplier vector and two soft predictors
+    g0 = m.gamma(ML.FixedPredictor(np.zeros(n)))
+    G = np.zeros((len(idx), n))
+    for k in range(n):
+        e = np.zeros(n)
+        e[k] = 1.0
+        gk = m.gamma(ML.FixedPredictor(e))
+        G[:, k] = np.asarray([gk[ent] - g0[ent] for ent in idx], dtype=float)
+    for j, ent in enumerate(idx):
+        w = np.asarray(m.signed_weights(ML.lam_series(m, {ent: 1.0})), dtype=float)
+        ctx.ev("basis_identities_checked", n)
+        ctx.check(w.shape == (n,) and bool(np.allclose(G[j, :], -w / n, rtol=1e-9, atol=1e-12)), "signed_weights_is_not_the_gradient_of_lambda_gamma:custom_utilities",
+                  entry=repr(ent), gamma_differences=G[j, :].tolist(), minus_weights_over_n=(-w / n).tolist() if w.shape == (n,) else None, wit=wit)
+    lam = pd.Series(rng.random(len(idx)) * 3, index=m.index)
+    h1, h2 = rng.random(n), rng.random(n)
+    lhs = float(np.dot(lam, np.asarray(m.gamma(ML.FixedPredictor(h1)), float) - np.asarray(m.gamma(ML.FixedPredictor(h2)), float)))
+    rhs = float(-np.dot(np.asarray(m.signed_weights(lam), float), h1 - h2) / n)
+    ctx.ev("affinity_checks")
+    ctx.check(close(lhs, rhs, 1e-9, 1e-11), "lambda_gamma_difference_differs_from_weighted_prediction_difference:custom_utilities", lhs=lhs, rhs=rhs, wit=wit)
 
 
 def _norm(v):
